@@ -80,7 +80,7 @@ claim("C18",
       design_ref="DESIGN.md §5 C18")
 
 claim("C04",
-      text="Proved (25 theorems in three props modules, incl. pins of the module constants and the constants of 25 anchored functions) over a hand-written Lean model of dmrs.from_mrs and mrs.from_dmrs (on the shared semantic core), for all MRSs "
+      text="Proved (28 theorems in three props modules, incl. pins of the module constants and the constants of 25 anchored functions) over a hand-written Lean model of dmrs.from_mrs and mrs.from_dmrs (on the shared semantic core), for all MRSs "
            "with pairwise distinct EP identifiers: every link is justified by the source (role of the start predication; target "
            "is the argument's predication or the first representative of the selected scope; EQ/NEQ by label identity, H for a "
            "handle constraint, HEQ for a direct label; MOD/EQ between representatives of one scope) with no well-formedness "
@@ -92,9 +92,14 @@ claim("C04",
            "nodes, top, index, set of links; second_conversion_stable) from hypotheses on the source MRS alone, the positional "
            "agreement of representatives (RepsAgree) being now a theorem (repsAgree_of_space) and no longer a run-time flag. Round 4: the single variable map (roundtrip_iso_partial: "
            "there is an injective, sort-preserving f with IsoVia f (strip m) m2, mapping labels, arguments role by role, handle "
-           "constraints, top, index and intrinsic-variable properties) is proved for the fragment without quantifiers and without "
-           "arguments under handle constraints; in general the bijection with the stripped source is decided by the direct oracle "
-           "on the real code (mrs.is_isomorphic plus an independent bijection search).",
+           "constraints, top, index and intrinsic-variable properties) is proved for the whole named in-space class: roundtrip_iso — for every MRS satisfying InSpace (15 decidable "
+           "hypotheses evaluated per generated case: BaseIdsDistinct, RolesOk, IVSorts, RstrLinked, ScopesHeld, HandleSorts, TopOk, "
+           "QeqOnly, ArgsLinked, NoCargRole, OneConstraint, NoConstrainedLabel, HolesOnce, QuantBody, QuantHead) and every choice of "
+           "scope labels, MRS→DMRS→MRS equals strip m renamed by one injective sort-preserving variable map, holes and "
+           "quantifier-bound variables included; roundtrip_iso_needs_O1 (decide-checked) shows that without QuantHead (each "
+           "quantifier binds the first representative of its restriction) no such map exists because the quantifier is rebound. The "
+           "direct oracle on the real code (mrs.is_isomorphic plus an independent bijection search) decides the same clause on every "
+           "generated case.",
       note="The stability theorem holds under BaseIdsDistinct, RolesOk (no role named MOD), IVSorts (x/e/i/p/u), RstrLinked, "
            "ScopesHeld (every scope connected by EQ links: fails exactly on the F08 class) and NoDescArg (no predication takes a "
            "scopal descendant of a scope-mate as non-scopal argument: false on about 1% of generated in-space cases, which are "
@@ -127,7 +132,7 @@ claim("C05",
       design_ref="DESIGN.md §5 C05")
 
 claim("C12",
-      text="Proved in Lean 4 (49 theorems, incl. pins of the source constants) for all profiles, schemas, filter outcomes and flag combinations of the model of "
+      text="Proved in Lean 4 (56 theorems in two props modules, incl. pins of the source constants) for all profiles, schemas, filter outcomes and flag combinations of the model of "
            "commands.mkprof: a profile made from a source profile holds, per copied relation, exactly the selected rows in order, "
            "with cells unchanged up to the field default and by-name remapping under a different schema; uncopied relations are "
            "empty; the skeleton/full file-presence rules hold; in-place refresh preserves rows; text input gives one item per line "
@@ -137,11 +142,16 @@ claim("C12",
            "line number unless given, i-wf = 0 iff the line starts with '*', i-length = word count against the generated isspace "
            "table, duplicate ids rejected, header handling per delimiter); refresh is total and preserves rows without a success "
            "hypothesis; the join plan (pivots, reachability in the key-sharing graph) is modelled and the all-rows fallback is "
-           "characterised (no key path from the table to a relation of the filter ⇒ all rows copied).",
+           "characterised (no key path from the table to a relation of the filter ⇒ all rows copied). Round 4, by composition with the "
+           "neighbouring models (imported, not edited): the filter IS C11's select on the source database (selectC; select_star_grouped "
+           "derived from C11's join theorems: the rows of the copied relation in stored order, once per satisfying joined tuple; "
+           "selectRowsC_exact_partial, selectRowsC_fallback, mkprofDbC_filtered end to end) and the writing side IS C09's "
+           "write/write_database with C08 records (refreshC_preserves from writeDb_readRaw; writeC_reads_back, mkprofDbC_relation).",
       note="Only compared, not proved: the tie between the model and commands.mkprof (2.7k generated cases per quick run, 30k "
-           "thorough). Assumed: column resolution and the per-row counts of satisfying joined tuples are model parameters (from "
-           "the harness's nested-loop evaluator); files are row lists "
-           "with logical mtimes, gzip is the identity, escaping left to C08/C09; schemas key-consistent with plain identifiers; "
+           "thorough). The harness's nested-loop evaluator is the ORACLE only since round 4 (it remains a model parameter only in the "
+           "driver's fallback for malformed filter text and one unmodelled date spelling; counts in coverage.model_paths; text-input "
+           "cases use the round-1 model); re.search stays a parameter as in C11; files are row lists "
+           "with logical mtimes, gzip is the identity; schemas key-consistent with plain identifiers; "
            "no date literals in filters; source and destination directories distinct.",
       technique="Lean 4 proof over executable model + differential correspondence with the Python implementation",
       design_ref="DESIGN.md §5 C12")
@@ -168,7 +178,7 @@ claim("C09",
       design_ref="DESIGN.md §5 C09")
 
 claim("C10",
-      text="Proved in Lean (20 theorems, incl. c10_pins: literals, operators, built-in calls and defaults of 34 anchored functions plus the FieldMapper key tables read from the live code by AST) for all inputs, for the model of the repaired itsdb.Table and TestSuite: every table "
+      text="Proved in Lean (27 theorems, incl. c10_pins: literals, operators, built-in calls and defaults of 34 anchored functions plus the FieldMapper key tables read from the live code by AST) for all inputs, for the model of the repaired itsdb.Table and TestSuite: every table "
            "operation (append, extend, item and slice assignment with any slice/step, update, clear, commit, reload, reopen) "
            "refines the same operation on a plain Python list, keeping the bookkeeping invariant, and this lifts by induction to "
            "all histories (same list, same stored relation, same exception), for plain and compressed files. Length, every "
@@ -176,11 +186,18 @@ claim("C10",
            "abstract list; extended-slice assignment is Python's (ValueError on length mismatch, positions outside the range "
            "untouched); commit never fails, stores exactly the list, is idempotent and keeps the physical form; reload returns "
            "the committed state; process, with any buffer size, leaves every produced row exactly once shown and stored, and a "
-           "later commit adds nothing.",
+           "later commit adds nothing. Round 4: FieldMapper (map/cleanup, parse-id = max(prev+1, i-id), one parse row then one row per "
+           "result then per edge, the final run group) and TestSuite.process with _add_row flushes are modelled (Mapper.lean) and the "
+           "last clause is proved on that model for every schema, item list, response script, buffer size and gzip flag: "
+           "processM_exactly_once, processM_synchronized (memory = disk, in_transaction false everywhere, commit afterwards changes "
+           "nothing), processM_unaffected_kept (a table outside the affected set keeps its pending rows exactly once), "
+           "parse_ids_distinct, process_phase_is_prefix_run.",
       note="The model is tied to the code only by the correspondence run on generated histories (bounded-exhaustive ≤2 ops from a "
            "24-op menu on plain and gzip tables, random and long histories, process with a scripted processor; full query set "
            "after every step). Assumed: a relation file is a list of rows; gzip is a flag; the record codec is the identity on "
-           "the generated typed values; FieldMapper is not modelled (oracle re-statement). Seven defects found here were "
+           "the generated typed values; the process model is compared with the real code item by item through the callback "
+           "parameter (what each of six tables shows, file content and pending flag before each item's rows are added); not modelled: "
+           "tokens, result flags, edges with daughters, a run without end, transfer/generate tasks keyed by parse-id. Seven defects found here were "
            "repaired in /repo (F03 F04 F05 F31 F32 F34 F52).",
       technique="Lean 4 proof over executable model (refinement to a list) + differential correspondence with the Python implementation",
       design_ref="DESIGN.md §5 C10")
